@@ -2146,6 +2146,8 @@ def read_lines(path_or_source, *, include=False, include_dirs=None):
 
             # modify the line by appending the size to the end (too hacky?)
             line.contents = '{} {}'.format(raw_line, size)
+            # remember where the file was found so that its bytes get read from there later
+            line.include_path = include_path
             lines.append(line)
         else:
             lines.append(line)
@@ -3331,7 +3333,8 @@ def resolve_include_bytes(items):
             new_items.append(item)
             continue
 
-        with open(item.path, 'rb') as f:
+        # read the file that the include search found (not whatever item.path means to the cwd)
+        with open(getattr(item.line, 'include_path', item.path), 'rb') as f:
             data = f.read()
 
         # defense against the dark race conditions
